@@ -446,6 +446,47 @@ func c18Check(c *C, k c18Case, viaTemplate bool) bool {
 			return false
 		}
 	}
+	if viaTemplate && k.param != nil && !k.seq {
+		// a literal input with an argument taken from the context: the compiled template is first executed with ANOTHER
+		// argument value, then with the real one
+		lit := ""
+		switch x := k.in.(type) {
+		case string:
+			if !strings.ContainsAny(x, "\"\\\n\r{}%") {
+				lit = "\"" + x + "\""
+			}
+		case int:
+			if x >= 0 {
+				lit = strconv.Itoa(x)
+			}
+		}
+		var alt any
+		switch pv := k.param.(type) {
+		case int:
+			alt = pv + 3
+		case string:
+			alt = pv + "9"
+		case float64:
+			alt = pv + 1
+		}
+		if lit != "" && alt != nil {
+			lset, _ := newSet(emptySetFiles)
+			if ltpl, lerr := lset.FromString("{% autoescape off %}{{ " + lit + "|" + k.filter + ":p }}{% endautoescape %}"); lerr == nil {
+				ltpl.Execute(pongo2.Context{"p": alt})
+				lout, lxerr := ltpl.Execute(pongo2.Context{"p": k.param})
+				c.Eval(2)
+				if lxerr != nil || lout != v.String() {
+					d := desc()
+					d["template"] = "{{ " + lit + "|" + k.filter + ":p }} executed with p=" + fmt.Sprintf("%#v", alt) + " first, then with the parameter above"
+					d["template_output"] = q(lout)
+					d["applyfilter_output"] = q(v.String())
+					d["error"] = errStr(lxerr)
+					c.Fail("routes-disagree", d)
+					return false
+				}
+			}
+		}
+	}
 	if _, isStr := k.in.(string); isStr && !k.seq && (viaTemplate || k.param == nil) {
 		// the filter tag, the filter standing behind another filter that has a parameter of its own
 		// (default_if_none never fires on a rendered body): a filter written without a parameter gets none
@@ -534,7 +575,8 @@ func c18Run(c *C) {
 	if c.Idx == nw {
 		// widthratio window through the template tag
 		set, _ := newSet(emptySetFiles)
-		tpl, err := set.FromString("{% widthratio a b c %}|{% widthratio a b c as w %}{{ w }}")
+		// (the value stored by `as` is the number: it adds, compares and pluralises like one)
+		tpl, err := set.FromString("{% widthratio a b c %}|{% widthratio a b c as w %}{{ w }}|{{ w|add:1 }}|{{ w + 1 }}|{% if w == expect %}eq{% endif %}|{{ w|pluralize }}|{{ w|divisibleby:1 }}")
 		if err != nil {
 			c.Fail("setup", D{"error": err.Error()})
 			return
@@ -556,9 +598,13 @@ func c18Run(c *C) {
 					if a < 0 {
 						want = -want
 					}
-					out, xerr := tpl.Execute(pongo2.Context{"a": a, "b": b, "c": w})
+					out, xerr := tpl.Execute(pongo2.Context{"a": a, "b": b, "c": w, "expect": want})
 					c.Eval(1)
-					exp := fmt.Sprintf("%d|%d", want, want)
+					plural := "s"
+					if want == 1 {
+						plural = ""
+					}
+					exp := fmt.Sprintf("%d|%d|%d|%d|eq|%s|True", want, want, want+1, want+1, plural)
 					if xerr != nil || out != exp {
 						c.Fail("reference-mismatch", D{"tag": "widthratio", "a": a, "b": b, "c": w, "output": out, "expected": exp, "error": errStr(xerr)})
 						return
